@@ -1,6 +1,6 @@
 # Shared machinery for ./check : building (C++ harness from /repo's working tree, Coq, extracted OCaml),
 # running case files through model and implementation, diffing, verdict, evidence.
-import os, sys, subprocess, hashlib, json, time, shutil, re, glob, fcntl
+import zlib, os, sys, subprocess, hashlib, json, time, shutil, re, glob, fcntl
 from concurrent.futures import ThreadPoolExecutor
 
 VERIF = os.path.dirname(os.path.dirname(os.path.abspath(__file__)))
@@ -459,10 +459,25 @@ def canon_impl(r):
     return r
 
 
+def short_mark(c):
+    """a third of the node cases (chosen by a hash of the case, so a replay makes the same choice) carry short=1: the harness then makes every
+    public call with the shortest argument list whose omitted arguments equal the documented defaults, while model and oracles read the
+    full argument list - the default arguments of the header are compared like any other behaviour"""
+    if not c.startswith('NODE ') or '|' not in c:
+        return c
+    head, rest = c.split('|', 1)
+    head = head.replace(' short=1', '').rstrip()
+    if zlib.crc32((head + '|' + rest.strip()).encode()) % 3 == 0:
+        head += ' short=1'
+    return head + ' |' + rest
+
+
 def correspond(run, family, harness, flagset, model_fam, cases, oracle, nontrivial=None, canon=canon_impl, known=None, model_args=(), impl_only=False):
     """Run [cases] through the extracted model and through the C++ harness, diff, and apply the property oracle to
     what the implementation did.  oracle(case, impl_result) -> None | 'description of the failure'.
     known(case, what) -> key string of a listed known finding or None."""
+    if harness == 'h_node':
+        cases = [short_mark(c) for c in cases]
     hexe, err = build_harness(harness, flagset)
     if hexe is None:
         run.broken.append('harness %s does not build against the current /repo/src (%s): %s' % (harness, flagset, (err or '')[-1500:]))
